@@ -504,6 +504,9 @@ pub struct SimNpm {
   pub sim: Rc<Sim>,
   pub cfg: NpmCfg,
   pub calls: Rc<RefCell<Vec<Vec<String>>>>,
+  /// every requirement this resolver was ever asked to resolve (an npm
+  /// resolver is stateful: a later call re-resolves the whole set)
+  pub known_reqs: Rc<RefCell<std::collections::BTreeSet<String>>>,
 }
 
 impl std::fmt::Debug for Sim {
@@ -541,10 +544,24 @@ impl NpmResolver for SimNpm {
       })
       .collect();
     let any_failed = results.iter().any(|r| r.is_err());
+    {
+      let mut known = self.known_reqs.borrow_mut();
+      for (r, res) in package_reqs.iter().zip(results.iter()) {
+        if res.is_ok() {
+          known.insert(r.to_string());
+        }
+      }
+    }
+    let nothing_to_resolve = self.known_reqs.borrow().is_empty();
     NpmResolvePkgReqsResult {
       results,
       // contract: don't run dep graph resolution if there are failures
-      dep_graph_result: if self.cfg.dep_graph_fails && !any_failed {
+      // (resolving nothing cannot fail: the dependency graph of an empty
+      // requirement set is empty)
+      dep_graph_result: if self.cfg.dep_graph_fails
+        && !any_failed
+        && !nothing_to_resolve
+      {
         Err(Arc::new(JsErrorBox::generic(
           "npm dependency graph resolution failed".to_string(),
         )))
